@@ -44,7 +44,33 @@ Proof.
   eexists. vm_compute. split; [reflexivity|]. split; reflexivity.
 Qed.
 
+(* a ThreadKey never crosses threads, however it is wrapped: every type that owns a key — a key holder of the current
+   tree (computed by the translator from the field types of every public struct / enum), `&mut` of, a tuple / array /
+   Vec / Box containing, or any type constructor of the table that owns its argument applied to such a type, to any
+   depth — is not Send, whatever raw lock the crate is instantiated with *)
+Theorem C14_key_never_sent :
+  forall rf t, owns_key all_rules key_holders t -> impl_auto all_rules rf MSend t = false.
+Proof. intros rf t. apply key_never_sent. apply k9_holders_not_send. pose proof C14_table_wf as W. unfold wf_key_known in W.
+       apply andb_true_iff in W. destruct W as [_ W]. exact W. Qed.
+
+(* not vacuous: the error of a failed try (it hands the key back) inside a PoisonError inside a Mutex inside a Vec
+   inside a boxed collection owns a key; so does a guard behind `&mut` *)
+Example C14_key_never_sent_applies :
+  owns_key all_rules key_holders
+    (TCon "BoxedLockCollection" (TTuple [TPay true true; TCon "Mutex" (TCon "PoisonError" (TCon "TryLockPoisonableError" (TPay true true)))])) /\
+  owns_key all_rules key_holders (TMutRef (TCon "MutexGuard" (TPay true false))) /\
+  In "TryLockPoisonableError" key_holders.
+Proof.
+  split; [|split].
+  - apply ok_wrap; [vm_compute; reflexivity|]. eapply ok_tuple; [right; left; reflexivity|].
+    apply ok_wrap; [vm_compute; reflexivity|]. apply ok_wrap; [vm_compute; reflexivity|].
+    apply ok_holder. vm_compute. tauto.
+  - apply ok_mut. apply ok_holder. vm_compute. tauto.
+  - vm_compute. tauto.
+Qed.
+
 Print Assumptions C14_table_wf.
+Print Assumptions C14_key_never_sent.
 Print Assumptions C14_key_linear.
 Print Assumptions C14_holds_stay_attached.
 Print Assumptions C14_refuted_take.
